@@ -285,19 +285,28 @@ def okChromCodons (x : CdsD) (ans : Option (Nat × List Location)) : Bool :=
 def innerCodons (x : CdsD) (c : Win) : List (List Nat) :=
   (x.toIn none).codons.filter (fun cod => cod.all (inWin c.w.1 c.w.2))
 
-/-- a chunk-relative location lifted back to chromosome coordinates -/
-def unchunkLocation (c : Win) : Location → Location
-  | .single b st => .single (unchunkBlk c.w c.wst b) (compose st c.wst)
-  | .compound l => .compound ⟨sortBlocks (compose l.strand c.wst) (l.blocks.map (unchunkBlk c.w c.wst)), compose l.strand c.wst⟩
-  | .empty => .empty
+/-- a chunk-relative position lifted back to the chromosome -/
+def unchunkPos (c : Win) (i : Nat) : Nat := if c.wst = .minus then c.w.2 - 1 - i else c.w.1 + i
 
-def insideChunk (c : Win) (l : Location) : Bool := (locationBlocks l).all (fun r => decide (r.2 ≤ c.w.2 - c.w.1))
+/-- the strand a location of chromosome strand `st` has on the chunk -/
+def chunkStrand (c : Win) (st : Strand) : Strand := compose st c.wst
+
+/-- a returned chunk-relative codon location, read 5'→3' on the chunk and lifted back position by position,
+    denotes exactly the three chromosome positions `want` (5'→3' on the CDS strand) -/
+def chunkCodonOk (c : Win) (st : Strand) (want : List Nat) (got : Location) : Bool :=
+  wfLocation got && (locationStrand? got == some (chunkStrand c st)) &&
+  ((locationBases got).map (unchunkPos c) == want)
+
+def chunkCodonsMatch (c : Win) (st : Strand) : List (List Nat) → List Location → Bool
+  | [], [] => true
+  | w :: ws, g :: gs => chunkCodonOk c st w g && chunkCodonsMatch c st ws gs
+  | _, _ => false
 
 /-- chunk-relative codons, lifted back, are exactly the inner codons (order kept, each on the CDS strand) -/
 def okChunkCodons (x : CdsD) (c : Win) (ans : Option (List Location)) : Bool :=
   match ans with
   | none => false
-  | some locs => locs.all (insideChunk c) && codonsMatch x.st (innerCodons x c) (locs.map (unchunkLocation c))
+  | some locs => chunkCodonsMatch c x.st (innerCodons x c) locs
 
 def cdsBasesIn (x : CdsD) (c : Win) : List Nat := (bases ⟨x.exons.map (·.1), x.st⟩).filter (inWin c.w.1 c.w.2)
 def keptIn (x : CdsD) (c : Win) : List Nat := ((x.toIn none).kept).filter (inWin c.w.1 c.w.2)
